@@ -156,5 +156,52 @@ func c02Scenarios(tier string) []*Scenario {
 			},
 		})
 	}
+	// G3: a pass is delivering the gauge of a subscope while the application updates it again, closes the
+	// subscope and asks for it again (which reports the closed scope on the spot): once everything has
+	// completed the reporter's latest value is the last update, whichever of the two reports came last.
+	for _, cached := range []bool{true, false} {
+		cached := cached
+		out = append(out, &Scenario{
+			Property: "C02", Name: "G3-pass-vs-update-close-reacquire-" + b2s(cached),
+			Body: func(x *Run) {
+				rec := &Recorder{}
+				x.Rec = rec
+				root, _ := tally.VerifNewRootScope(scopeOpts(rec, cached, false), 0, 1)
+				tags := map[string]string{"k": "v"}
+				sub := root.Tagged(tags)
+				g := sub.Gauge("g")
+				g.Update(1.5)
+				p := rt.GoNamed("pass", func() { tally.VerifReportOnce(root) })
+				a := rt.GoNamed("app", func() {
+					g.Update(2.5)
+					closeScope(sub)
+					root.Tagged(map[string]string{"k": "v"}).Gauge("g2").Update(7)
+				})
+				p.Join()
+				a.Join()
+				tally.VerifReportOnce(root)
+			},
+			Check: func(x *Run, o *rt.Outcome) (string, string, string) {
+				var last uint64
+				n := 0
+				for _, e := range x.Rec.Log {
+					if e.Kind == "gauge" && e.Name == "g" {
+						n++
+						last = e.F
+						if e.F != math.Float64bits(1.5) && e.F != math.Float64bits(2.5) {
+							return "invented-value", e.String(), "viol"
+						}
+					}
+				}
+				if n > 2 {
+					return "more-deliveries-than-updates", fmt.Sprintf("%d deliveries for 2 updates", n), "viol"
+				}
+				if n == 0 || last != math.Float64bits(2.5) {
+					return "stale-value-after-close-and-reacquire", fmt.Sprintf("every report has completed, the reporter's most recent value for the gauge is %#x after %d deliveries; the last update, made before the subscope was closed, was 2.5", last, n), "viol"
+				}
+				return "", "", deliveredOutcome(x.Rec.Log)
+			},
+		})
+	}
 	return out
 }
